@@ -217,7 +217,13 @@ func free(t *testing.T, rng *emit.Rand, batch int, withDeleter bool) (string, ma
 		e := setup(t, batch)
 		ctx := context.Background()
 		var init []uint64
-		for n := uint64(1); n <= uint64(6+rng.Intn(4)); n++ {
+		// half of the deleter-free runs start from a store whose first header is not height 1: the heights
+		// below arrive later as segments of their own, possibly before the segment that connects them
+		base := uint64(1)
+		if !withDeleter && rng.Bool() {
+			base = uint64(3 + rng.Intn(5))
+		}
+		for n := base; n <= base+uint64(5+rng.Intn(4)); n++ {
 			init = append(init, n)
 		}
 		_ = e.s.Append(ctx, e.hdrs(init)...)
@@ -230,7 +236,25 @@ func free(t *testing.T, rng *emit.Rand, batch int, withDeleter bool) (string, ma
 				time.Sleep(time.Microsecond)
 			}
 		}
-		all := randBatches(rng, uint64(len(init)), 8+rng.Intn(6))
+		all := randBatches(rng, init[len(init)-1], 8+rng.Intn(6))
+		if base > 1 {
+			cut := 1 + uint64(rng.Intn(int(base-1))) // [1..cut] and [cut+1..base-1]
+			var lo, hi []uint64
+			for n := uint64(1); n <= cut; n++ {
+				lo = append(lo, n)
+			}
+			for n := cut + 1; n < base; n++ {
+				hi = append(hi, n)
+			}
+			segs := [][]uint64{lo}
+			if len(hi) > 0 && rng.Chance(70) { // otherwise the low segment stays cut off for good
+				segs = append(segs, hi)
+			}
+			for _, sg := range segs {
+				at := rng.Intn(len(all) + 1)
+				all = append(all[:at], append([][]uint64{sg}, all[at:]...)...)
+			}
+		}
 		nw := 2 + rng.Intn(2)
 		per := make([][][]uint64, nw)
 		for i, b := range all {
@@ -263,10 +287,15 @@ func free(t *testing.T, rng *emit.Rand, batch int, withDeleter bool) (string, ma
 							if withDeleter && n < 10 {
 								continue
 							}
-							// non-waiting reads only: GetByHeight would wait for the header to arrive
+							// by hash and by height (a stored height is answered at once; the virtual
+							// deadline only keeps a wrong answer from parking the writer)
 							ok, _ := e.s.Has(ctx, e.chain[n-1].Hash())
 							h, err := e.s.Get(ctx, e.chain[n-1].Hash())
-							synced[wi] = append(synced[wi], emit.B(err == nil && h != nil && h.Height() == n && ok))
+							rctx, rcancel := context.WithTimeout(ctx, time.Millisecond)
+							g, gerr := e.s.GetByHeight(rctx, n)
+							rcancel()
+							synced[wi] = append(synced[wi], emit.B(err == nil && h != nil && h.Height() == n && ok &&
+								gerr == nil && g != nil && g.Height() == n && string(g.Hash()) == string(e.chain[n-1].Hash())))
 						}
 					}
 				}
